@@ -16,10 +16,10 @@ CtxForms == CASE Which = "c01" -> C01CtxForms [] Which = "c03" -> C03CtxForms []
 
 ASSUME InitRegisters
 ASSUME SetContext(CtxForms)
-ASSUME TLCSet(3, G)
-ASSUME TLCSet(5, ndJsonDeserialize(IOEnv.VERIF_TRACE))     \* records [sz, idx, tops: Seq([a, d])]
+ASSUME TLCSet(3, Norm(G))
+ASSUME TLCSet(5, Norm(ndJsonDeserialize(IOEnv.VERIF_TRACE)))     \* records [sz, idx, tops: Seq([a, d])]
 Trace == TLCGet(5)
-ASSUME TLCSet(4, CountTab(G, 6, <<>>))
+ASSUME TLCSet(4, Norm(CountTab(G, 6, <<>>)))
 
 RECURSIVE StripG(_)
 \* generated symbols G__n are compared up to their number
